@@ -385,6 +385,13 @@ func (comp) Run(h *core.History, scratch string) *core.Result {
 		return res
 	}
 
+	type keptGet struct {
+		obj  interface{}
+		want []byte
+		key  string
+		step int
+	}
+	var keptGets []keptGet
 	// the monitor's own bookkeeping, from the text of C17: key -> value for "every key put so far"
 	putSoFar := map[string][]byte{}
 	everSpilled := map[string]bool{}
@@ -570,7 +577,15 @@ func (comp) Run(h *core.History, scratch string) *core.Result {
 			}
 		case opGet:
 			k := a[0].Bytes()
-			v, ok := blobBytes(ad.Get(k))
+			gobj, gok := ad.Get(k)
+			v, ok := blobBytes(gobj, gok)
+			if ok {
+				// the caller KEEPS what Get returned (to use it after further reads): it is checked again after every later operation
+				keptGets = append(keptGets, keptGet{obj: gobj, want: append([]byte{}, v...), key: string(k), step: i})
+				if len(keptGets) > 6 {
+					keptGets = keptGets[1:]
+				}
+			}
 			toks = append(toks, core.Lbl(2, ob(v, ok)), core.Lbl(3, core.Bool(ok)))
 			if want, was := putSoFar[string(k)]; was && !closed {
 				if !ok || !bytes.Equal(v, want) {
@@ -710,6 +725,13 @@ func (comp) Run(h *core.History, scratch string) *core.Result {
 				if v, ok := persisted(k); !ok || !bytes.Equal(v, valBefore[k]) {
 					res.Failf("C17", i, "entry %s (value %x) left the memory tier but the persister holds (%x,%v)", k, valBefore[k], v, ok)
 				}
+			}
+		}
+		for _, kg := range keptGets {
+			if now, ok := blobBytes(kg.obj, true); !ok || !bytes.Equal(now, kg.want) {
+				res.Failf("C17", i, "the object Get(%s) returned at step %d read %x then; it now reads %x (a later read reuses the object handed out earlier)", kg.key, kg.step, kg.want, now)
+				keptGets = nil
+				break
 			}
 		}
 		if marshUsed {
